@@ -6,7 +6,12 @@ HUB_CUTS = {
 }
 
 
-def run_hub(c, entries, id_prefixes, cuts=None, loop=64, sched="manual", replay=False, solver="z3", extra_cuts=None):
+HUB_REDIRECTS = [{"file": "hub/hub_connections.go", "recv": "(h *Hub)", "name": "connectFoundService",
+                  "params": "remoteService *api.ServiceDetails, host, port, path string", "result": "error",
+                  "target": "vDial(h, remoteService, host, port, path)"}]
+
+
+def run_hub(c, entries, id_prefixes, cuts=None, loop=64, sched="manual", replay=True, solver="z3", extra_cuts=None):
     cc = dict(HUB_CUTS)
     cc.update(extra_cuts or {})
     res, meta = lib.run_engine("hub", entries, sched=sched, cuts=cc if cuts is None else cuts, loop=loop, solver=solver)
@@ -20,5 +25,5 @@ def run_hub(c, entries, id_prefixes, cuts=None, loop=64, sched="manual", replay=
         for v in r["violations"] or []:
             if v["kind"] != "assert" or not any(v["id"].startswith(p) for p in id_prefixes):
                 continue
-            c.handle("hub", e, v, hang_s=8, replay=replay)
+            c.handle("hub", e, v, hang_s=8, replay=replay, redirects=HUB_REDIRECTS)
     return res
